@@ -480,8 +480,10 @@ def locsBeq : List Location.PLoc → List Location.PLoc → Bool
   | _, _ => false
 end
 
-/-- a qualifier value keeps its quotation marks only inside -/
-def wfQualRT (kv : Str × Str) : Bool := kv.2.head? != some '"' && kv.2.getLast? != some '"' && !kv.1.contains '/'
+/-- a qualifier key without `/` (the parser would cut the key there).  Since f2612ce the parser strips only the
+enclosing pair of quotation marks, so a VALUE may begin with, end with and contain quotation marks (`Build` writes
+a value on one line, the continuation-line logic of the parser is not involved) -/
+def wfQualRT (kv : Str × Str) : Bool := !kv.1.contains '/'
 
 /-- reference numbers are the positions -/
 def wfRefIndex : Nat → List Reference → Bool
